@@ -70,6 +70,14 @@
 #include "threadpool/threadpool.h"
 #include "threadpool/threadpool_msg_sys.h"
 
+/* Verification scheduling points (no-ops unless built with -DLIBLCB_VERIF). */
+#ifdef LIBLCB_VERIF
+void	lcb_verif_point(int id, const void *obj);
+#define LCB_VP(__id, __obj)	lcb_verif_point((__id), (__obj))
+#else
+#define LCB_VP(__id, __obj)
+#endif
+
 #ifdef THREAD_POOL_SETTINGS_XML
 #	include "utils/buf_str.h"
 #	include "utils/xml.h"
@@ -835,6 +843,7 @@ tpt_loop(tpt_p tpt) {
 	while (TP_THREAD_STATE_RUNNING == tpt->state) {
 		tpt->tick_cnt ++; /* Tic-toc. */
 		cnt = epoll_wait((int)tpt->io_fd, &epev, 1, -1 /* infinite wait. */);
+		LCB_VP(17, tpt);
 		if (0 == cnt) /* Timeout. */
 			continue;
 		if (-1 == cnt) { /* Error / Exit. */
@@ -867,6 +876,7 @@ tpt_loop(tpt_p tpt) {
 				continue;
 			}
 		}
+		LCB_VP(18, tp_udata);
 		if (0 != (TPDATA_F_DISABLED & tp_udata->tpdata))
 			continue; /* Do not process disabled events. */
 		/* Translate ep event to thread poll event. */
@@ -1122,6 +1132,7 @@ tp_shutdown(tp_p tp) {
 	if (0 != tp->shutdown)
 		return;
 	tp->shutdown ++;
+	LCB_VP(10, tp);
 	/* Private virtual thread. */
 	tp->pvt->state = TP_THREAD_STATE_STOP;
 	if (NULL != tp->s.tpt_on_stop) {
@@ -1131,6 +1142,7 @@ tp_shutdown(tp_p tp) {
 	for (size_t i = 0; i < tp->s.threads_max; i ++) {
 		if (0 == tpt_is_running(&tp->threads[i]))
 			continue;
+		LCB_VP(11, &tp->threads[i]);
 		tpt_msg_send(&tp->threads[i], NULL, 0,
 		    tpt_msg_shutdown_cb, NULL);
 	}
@@ -1153,6 +1165,7 @@ tp_shutdown_wait(tp_p tp) {
 	for (size_t i = 0; i < tp->s.threads_max; i ++) {
 		if (TP_THREAD_STATE_STOP == tp->threads[i].state)
 			continue;
+		LCB_VP(16, &tp->threads[i]);
 		error = pthread_join(tp->threads[i].pt_id, NULL);
 		switch (error) {
 		case 0: /* No error. */
@@ -1285,6 +1298,7 @@ tp_thread_proc(void *data) {
 	}
 
 	tpt->tp->threads_cnt ++;
+	LCB_VP(12, tpt);
 	tpt->state = TP_THREAD_STATE_RUNNING;
 
 	snprintf(thr_name, sizeof(thr_name), "%s: %zu",
@@ -1319,12 +1333,14 @@ tp_thread_proc(void *data) {
 	}
 #endif
 
+	LCB_VP(13, tpt);
 	if (NULL != tpt->tp->s.tpt_on_start) {
 		tpt->tp->s.tpt_on_start(tpt);
 	}
 
 	tpt_loop(tpt);
 
+	LCB_VP(14, tpt);
 	if (NULL != tpt->tp->s.tpt_on_stop) {
 		tpt->tp->s.tpt_on_stop(tpt);
 	}
@@ -1333,6 +1349,7 @@ tp_thread_proc(void *data) {
 	pthread_setspecific(tp_tls_key_tpt, NULL);
 	pthread_self_name_set(NULL);
 	memset(&tpt->pt_id, 0x00, sizeof(pthread_t));
+	LCB_VP(15, tpt);
 	tpt->state = TP_THREAD_STATE_STOP; /* Reset state on exit. */
 	tpt->tp->threads_cnt --;
 
